@@ -1077,9 +1077,17 @@ class Exec:
         else:
             res = self.fresh_result(rt, env, st)
         spec_env["result"] = res
+        if c.ghost.get("introduces_groups"):
+            # the callee's clauses speak of ghost run boundaries (group_lo / n_groups): some such exist after the call
+            gG = fresh(I, "n_groups")
+            st.assume(gG >= 0)
+            st.ghost = dict(st.ghost)
+            st.ghost["view_groups"] = (gG, z3.Function(fresh_name("grp_lo"), I, I))
         self.assume_mode += 1      # use(...) hints of the callee's clauses are dropped (they are valid formulas)
         try:
             for lab, ens in c.ensures:
+                if "local_" in ens:
+                    continue       # stepping-stone clauses about the callee's locals are not part of its interface
                 f = self.spec_formula(ens, spec_env, st, old_st=pre_st)
                 st.assume(_b(f))
         finally:
